@@ -68,6 +68,8 @@ DIRECTED = [
     [C(0), C(1), W(0), Q(1, v=0), Q(1, "mutate"), D(1), D(0), STOP],
     [C(0), C(1, True), W(0), Q(1, v=2), STOP, D(0), D(1, "exit")],
     [C(0), W(0), D(0), C(1), Q(1, v=0), D(1)],             # ... and without a stop the server keeps serving others
+    # 70 connections that go away without a (valid) handshake, then a regular client
+    [{"c": "flood", "n": 70}, C(0), Q(0, v=0), C(1, True), Q(1, v=0), D(0), D(1, "exit"), STOP],
     # the user hits return on an empty line in the CLI client, then goes on working
     [C(0, True), Q(0, v=0), {"c": "cliblank", "s": 0}, Q(0, v=5), Q(0, "mutate"), D(0, "exit"), STOP],
     # a reply that is an empty line (start on a locked pool: PoolIsLocked has no message), raw and through the CLI client
